@@ -74,7 +74,7 @@ CHECKS = {
         "technique": "stateful property-based testing (rapid) against a reference model",
         "rule": ("plans of 1-60 ops from the zero value; non-trivial = a MoveBefore/MoveAfter with node and mark adjacent or at opposite ends on a list of length >= 3 after at least one Remove; distinct = distinct plan JSON"),
         "assumptions": ["slice model in c06list is correct", "rapid v1.3.0; go1.26.8"],
-        "jobs": [{"pkg": "c06list", "kinds": ["list"], "scale_thorough": 10, "shards_thorough": 16}],
+        "jobs": [{"pkg": "c06list", "kinds": ["list", "list-gc"], "scale_thorough": 10, "shards_thorough": 16}],
     },
     "C15": {
         "level": "exploration",
